@@ -84,6 +84,7 @@ pub mod c11;
 pub mod c04;
 pub mod c08;
 pub mod c08_expr;
+pub mod c08_stmt;
 pub mod c18;
 pub mod c20;
 pub mod lw;
@@ -100,6 +101,7 @@ pub mod c13;
 pub mod c17;
 pub mod instr_io;
 pub mod files;
+pub mod files_anm;
 pub mod c03;
 pub mod c16;
 pub mod c01;
